@@ -39,12 +39,12 @@ MANIFEST = {
     "technique": ("Coq model of export_sdl (escape table regenerated from source) + independent Coq reader for the "
                   "type-system grammar + abstraction to a plain type-system record; token-level round-trip lemmas per printer; "
                   "character-exact differential correspondence with Schema::sdl_with_options; cross-check with the crate's parse_schema"),
-    "text": ("Coq theorems, for all inputs outside seven narrow known classes: deprecation reasons (escape_string, table regenerated "
+    "text": ("Coq theorems, for all inputs outside six narrow known classes: deprecation reasons (escape_string, table regenerated "
              "from source) and @deprecated with/without reason, single-line descriptions at any indentation, names, type references "
              "and the `implements` clause read back with a reader written from the GraphQL type-system grammar; block descriptions "
              "are proved on a bounded domain (all strings up to 5 characters over 7 critical characters); the whole-document round trip "
              "parse_sdl(export R) ~ abs_registry R is evaluated inside Coq on every generated case, not proved in general (partial). "
-             "Seven refutations with witnesses replayed on the real exporter. The exporter model agrees character for character with "
+             "Six refutations with witnesses replayed on the real exporter; the deprecation-reason class is repaired (escape_string proved to carry every reason). The exporter model agrees character for character with "
              "Schema::sdl_with_options on generated (injected) registries and two derive-built schemas under varied options; "
              "the crate's parse_schema is run on every exported text as a second reader."),
     "note": ("trusted: Coq kernel, facts translators, harness dump, sampled agreement model vs code; "
